@@ -8,6 +8,8 @@ namespace Lcapy.MNA
 open Ix
 variable {K : Type} [Field K]
 set_option linter.unusedSimpArgs false
+set_option linter.unusedSectionVars false
+set_option linter.unnecessarySeqFocus false
 
 theorem coupMap_zero_indep (coup : List (Nat × K × Option K)) :
     ∀ v ∈ (coupMap (fun _ => (0 : K)) coup).flatMap (fun p => p.2.2.toList), v = 0 := by
@@ -116,5 +118,29 @@ theorem forall2_refl (cs : List (Cpt K)) : List.Forall₂ SameShape cs cs := by
 theorem vd_linear (x1 x2 : Ix → K) (a b : K) (p m : Nat) :
     vd (fun i => a * x1 i + b * x2 i) p m = a * vd x1 p m + b * vd x2 p m := by
   cases p <;> cases m <;> simp [vd, volt] <;> ring
+
+theorem coupMap_comp (f g : K → K) (coup : List (Nat × K × Option K)) :
+    coupMap g (coupMap f coup) = coupMap (g ∘ f) coup := by
+  simp [coupMap, List.map_map, Function.comp_def, Option.map_map]
+
+theorem mapSrc_comp (f g : K → K) (c : Cpt K) : (c.mapSrc f).mapSrc g = c.mapSrc (g ∘ f) := by
+  cases c <;> simp [Cpt.mapSrc, coupMap_comp, Option.map_map]
+
+theorem coupMap_id (coup : List (Nat × K × Option K)) : coupMap (fun v => v) coup = coup := by
+  induction coup with
+  | nil => rfl
+  | cons p t ih => obtain ⟨b, M, o⟩ := p; simp only [coupMap, List.map_cons] at ih ⊢; rw [ih]; cases o <;> simp
+
+theorem mapSrc_id (c : Cpt K) : c.mapSrc (fun v => v) = c := by
+  cases c with
+  | Cap n1 n2 c v0 => cases v0 <;> simp [Cpt.mapSrc]
+  | Ind n1 n2 m l i0 coup => cases i0 <;> simp [Cpt.mapSrc, coupMap_id]
+  | _ => simp [Cpt.mapSrc]
+
+theorem owned_mapSrc (f : K → K) (c : Cpt K) : owned (c.mapSrc f) = owned c := by
+  cases c <;> simp [Cpt.mapSrc, owned]
+
+theorem vd_smul (a : K) (x : Ix → K) (p m : Nat) : vd (fun i => a * x i) p m = a * vd x p m := by
+  cases p <;> cases m <;> simp [vd, volt]; ring
 
 end Lcapy.MNA
